@@ -471,6 +471,11 @@ func (s *reprovider) Reprovide(ctx context.Context) error {
 	if s.throughputCallback != nil && s.throughputMinimumProvides < batchSize {
 		batchSize = s.throughputMinimumProvides
 	}
+	if batchSize == 0 {
+		// MaxBatchSize(0) or ThroughputReport(f, 0): with a zero batch size the loop below would never
+		// read from kch and would spin forever without providing anything.
+		batchSize = 1
+	}
 
 	cids := make(map[cid.Cid]struct{}, min(batchSize, 1024))
 	allCidsProcessed := false
